@@ -244,8 +244,8 @@ def fermat_hook(m, tb, e, mod, t):
         m.p.assume(QR(a) == (z3.simplify(sq % P) == a))
         # square roots in the field F_P are unique up to sign (no zero divisors): if a is the
         # square of a known y-coordinate, the computed root is that coordinate or its negative
-        for c in m.p.__dict__.get("_curve_scalars", []):
-            y2 = z3.simplify(nl_mul(Yc(c), Yc(c)) % P) if getattr(m, "nl_uf", False) else (Yc(c) * Yc(c)) % P
+        for c in (m.p.__dict__.get("_curve_scalars", []) if getattr(m, "nl_uf", False) else []):
+            y2 = z3.simplify(nl_mul(Yc(c), Yc(c)) % P)
             m.p.assume(z3.Implies(z3.And(a == y2, QR(a)), z3.Or(t == Yc(c), t == P - Yc(c))))
 
 
